@@ -12,6 +12,8 @@ from . import prep
 REPO = os.environ.get('VF_REPO', '/repo')
 VERIF = os.path.dirname(os.path.dirname(os.path.abspath(__file__)))
 MEM_LIMIT_KB = 14 * 1024 * 1024
+import threading
+SOLVER_SLOTS = threading.BoundedSemaphore(int(os.environ.get('VF_SLOTS', '0')) or (os.cpu_count() or 4))
 
 
 class Infra(Exception):
@@ -57,7 +59,7 @@ class Group(object):
                  loops=None, normalise=False, defines=(), cbmc=(), solver='sat', timeout=600,
                  tier='quick', malloc_fail=None, expect_min=1, must_have=(), covers=('end',),
                  what='', scope=None, replay=None, unwind=None, gen=None, functions=(),
-                 instances=None, apply_loops=None, extra_instrument=(), object_bits=None, cover_solver=False):
+                 instances=None, apply_loops=None, extra_instrument=(), object_bits=None, cover_solver=False, shards=None):
         self.gid = gid
         self.props = list(props)
         self.kind = kind
@@ -89,6 +91,7 @@ class Group(object):
         self.extra_instrument = list(extra_instrument)
         self.object_bits = object_bits
         self.cover_solver = cover_solver
+        self.shards = 1 if shards is None else shards
 
 
 class GroupResult(object):
@@ -267,24 +270,54 @@ def _run_group(g, r, sdir, log):
     elif g.solver == 'z3':
         chk += ['--z3']
     r.cmds.append(' '.join(chk))
-    rc, out, dt = sh(chk, sdir, g.timeout, log)
-    r.solver_s += dt
-    if rc not in (0, 10):
-        # rc 6 etc: parse/usage error; or crash
-        raise Infra("cbmc exited with %d, see %s" % (rc, log))
-    doc = _parse_cbmc_json(out)
-    results = None
-    for x in doc:
-        if isinstance(x, dict):
-            if 'result' in x:
-                results = x['result']
-            mt = x.get('messageText', '')
-            if x.get('messageType') in ('WARNING', 'ERROR') and re.search(r'ignoring (forall|exists)', mt):
-                raise Infra("quantifier ignored by back end: " + mt[:120])
-            if x.get('messageType') == 'ERROR':
-                raise Infra("cbmc error: " + mt[:200])
-    if results is None:
-        raise Infra("no result section in cbmc output")
+    shard_args = [[]]
+    if g.shards > 1:
+        rc, out, dt = sh(['cbmc', gb2, '--show-properties', '--json-ui'] + [a for a in base[3:] if a.startswith('--unwind') or a.isdigit()],
+                         sdir, 300, log)
+        names = []
+        for x in _parse_cbmc_json(out):
+            if isinstance(x, dict) and 'properties' in x:
+                names = [p['name'] for p in x['properties']]
+        if names:
+            shard_args = []
+            for k in range(g.shards):
+                part = names[k::g.shards]
+                if part:
+                    a = []
+                    for n in part:
+                        a += ['--property', n]
+                    shard_args.append(a)
+    results = []
+
+    def one(extra):
+        with SOLVER_SLOTS:
+            rc, out, dt = sh(chk + extra, sdir, g.timeout, log)
+        if rc not in (0, 10):
+            raise Infra("cbmc exited with %d, see %s" % (rc, log))
+        doc = _parse_cbmc_json(out)
+        res = None
+        for x in doc:
+            if isinstance(x, dict):
+                if 'result' in x:
+                    res = x['result']
+                mt = x.get('messageText', '')
+                if x.get('messageType') in ('WARNING', 'ERROR') and re.search(r'ignoring (forall|exists)', mt):
+                    raise Infra("quantifier ignored by back end: " + mt[:120])
+                if x.get('messageType') == 'ERROR':
+                    raise Infra("cbmc error: " + mt[:200])
+        if res is None:
+            raise Infra("no result section in cbmc output")
+        return res, dt
+    if len(shard_args) == 1:
+        res, dt = one(shard_args[0])
+        results += res
+        r.solver_s += dt
+    else:
+        import concurrent.futures
+        with concurrent.futures.ThreadPoolExecutor(max_workers=len(shard_args)) as ex:
+            for res, dt in ex.map(one, shard_args):
+                results += res
+                r.solver_s += dt
     bad = []
     for p in results:
         st = p.get('status')
@@ -328,7 +361,8 @@ def _run_group(g, r, sdir, log):
             cov += ['--property', n]
         if g.solver == 'cvc5' and g.cover_solver:
             cov += ['--cvc5']
-        rc, out, dt = sh(cov, sdir, g.timeout, log)
+        with SOLVER_SLOTS:
+            rc, out, dt = sh(cov, sdir, g.timeout, log)
         r.solver_s += dt
         if rc not in (0, 10):
             raise Infra("cbmc vacuity run exited with %d" % rc)
